@@ -17,6 +17,7 @@ import (
 // ---------------------------------------------------------------------------
 
 type Obligation struct {
+	Ret    *retInfo // for ensures obligations: the return they were generated at
 	Origin string
 	Name   string // stable name: unit#kind#detail
 	Kind   string // index, slice, nilmap, div, panic, typeassert, precond, ensures, invariant-entry, invariant-preserved, modifies, lemma, shift, cover
@@ -227,7 +228,9 @@ func (g *Gen) instantiate(rounds int) int {
 					if tup.origin == "" {
 						g.assume(qh.guard, t)
 					} else {
-						g.privAsms[tup.origin] = append(g.privAsms[tup.origin], sImp(qh.guard, t))
+						for _, c := range splitAnd(t) {
+							g.privAsms[tup.origin] = append(g.privAsms[tup.origin], sImp(qh.guard, c))
+						}
 					}
 					added++
 				}()
@@ -282,10 +285,88 @@ func (g *Gen) define(prefix string, s Sort, term string) string {
 }
 
 func (g *Gen) assume(reach, fact string) {
-	if fact == "true" {
-		return
+	for _, c := range splitAnd(fact) {
+		if c == "true" {
+			continue
+		}
+		g.asms = append(g.asms, sImp(reach, c))
 	}
-	g.asms = append(g.asms, sImp(reach, fact))
+}
+
+// splitAnd splits a top-level (and a b ...) into its conjuncts, recursively;
+// (=> g (and a b)) is distributed. Quantified conjuncts can then be dropped
+// individually in the quantifier-free stage.
+func splitAnd(t string) []string {
+	if strings.HasPrefix(t, "(and ") {
+		var out []string
+		for _, a := range sexpArgs(t) {
+			out = append(out, splitAnd(a)...)
+		}
+		return out
+	}
+	if strings.HasPrefix(t, "(=> ") {
+		args := sexpArgs(t)
+		if len(args) == 2 && strings.HasPrefix(args[1], "(and ") {
+			var out []string
+			for _, c := range splitAnd(args[1]) {
+				out = append(out, sImp(args[0], c))
+			}
+			return out
+		}
+	}
+	return []string{t}
+}
+
+// sexpArgs returns the arguments of "(op a b ...)".
+func sexpArgs(t string) []string {
+	var out []string
+	i := 1
+	// skip operator
+	for i < len(t) && t[i] != ' ' {
+		i++
+	}
+	for i < len(t) {
+		for i < len(t) && t[i] == ' ' {
+			i++
+		}
+		if i >= len(t) || t[i] == ')' {
+			break
+		}
+		start := i
+		switch t[i] {
+		case '(':
+			d := 0
+			for i < len(t) {
+				if t[i] == '(' {
+					d++
+				} else if t[i] == ')' {
+					d--
+					if d == 0 {
+						i++
+						break
+					}
+				} else if t[i] == '|' {
+					i++
+					for i < len(t) && t[i] != '|' {
+						i++
+					}
+				}
+				i++
+			}
+		case '|':
+			i++
+			for i < len(t) && t[i] != '|' {
+				i++
+			}
+			i++
+		default:
+			for i < len(t) && t[i] != ' ' && t[i] != ')' {
+				i++
+			}
+		}
+		out = append(out, t[start:i])
+	}
+	return out
 }
 
 func (g *Gen) declareUF(name string, sig string) {
